@@ -22,6 +22,8 @@
 
 package actor
 
+import "github.com/tochemey/goakt/v4/internal/verifhook"
+
 // worker is a single goroutine in the dispatcher pool. It pulls
 // schedulable items from the ready queue and delegates processing to the
 // item's runTurn method. The worker is intentionally agnostic of the
@@ -42,6 +44,7 @@ func (w *worker) run() {
 	for {
 		s, ok := w.dispatcher.readyQueue.take(w.id)
 		if !ok {
+			verifhook.At("worker.exit", w.dispatcher, int64(w.id), 0)
 			return
 		}
 		s.runTurn(w)
